@@ -284,6 +284,64 @@ type gen struct {
 	external map[string]int
 	assumed  map[string]bool
 	pending  []func()
+	guarded  map[string]int // guarded field name -> id
+	accesses []accessRec
+	accSeen  map[string]bool
+}
+
+type accessRec struct {
+	Field string   `json:"field"`
+	ID    int      `json:"id"`
+	Write bool     `json:"write"`
+	Held  []string `json:"held"`
+	Where string   `json:"where"`
+	Pos   string   `json:"pos"`
+}
+
+func (g *gen) access(field string, write bool, c *ctx, n ast.Node) {
+	id, ok := g.guarded[field]
+	if !ok {
+		return
+	}
+	key := fmt.Sprintf("%s|%v|%s|%s", field, write, strings.Join(c.held, ","), g.pos(n))
+	if g.accSeen[key] {
+		return
+	}
+	g.accSeen[key] = true
+	g.accesses = append(g.accesses, accessRec{Field: field, ID: id, Write: write, Held: append([]string{}, c.held...), Where: c.where, Pos: g.pos(n)})
+}
+
+func (c *ctx) acquire(l, mode string) { c.held = append(c.held, l+":"+mode) }
+func (c *ctx) release(l string) {
+	for i := len(c.held) - 1; i >= 0; i-- {
+		if strings.HasPrefix(c.held[i], l+":") {
+			c.held = append(c.held[:i:i], c.held[i+1:]...)
+			return
+		}
+	}
+}
+
+// guardedTarget finds the guarded field an assignment target writes to.
+func (g *gen) guardedTarget(e ast.Expr) (string, ast.Node, bool) {
+	for {
+		switch x := e.(type) {
+		case *ast.IndexExpr:
+			e = x.X
+		case *ast.ParenExpr:
+			e = x.X
+		case *ast.StarExpr:
+			e = x.X
+		case *ast.SliceExpr:
+			e = x.X
+		case *ast.SelectorExpr:
+			if _, ok := g.guarded[x.Sel.Name]; ok {
+				return x.Sel.Name, x, true
+			}
+			return "", nil, false
+		default:
+			return "", nil, false
+		}
+	}
 }
 
 type ctx struct {
@@ -301,6 +359,7 @@ type ctx struct {
 	breakK    func(c *ctx) *S
 	contK     func(c *ctx) *S
 	where     string
+	held      []string // lock terms with mode, e.g. "SMu:W", in acquisition order
 }
 
 func (c *ctx) clone() *ctx {
@@ -326,6 +385,7 @@ func (c *ctx) clone() *ctx {
 		n.fparams[k] = v
 	}
 	n.defers = append([]*S{}, c.defers...)
+	n.held = append([]string{}, c.held...)
 	return &n
 }
 
@@ -378,6 +438,13 @@ func (g *gen) lockOf(x ast.Expr, c *ctx) (string, bool) {
 		}
 	}
 	return "", false
+}
+
+func modeOf(method string) string {
+	if strings.Contains(method, "RLock") {
+		return "R"
+	}
+	return "W"
 }
 
 func isName(e ast.Expr, name string) bool {
@@ -479,6 +546,7 @@ func (g *gen) calls(e ast.Expr, c *ctx, k K) *S {
 	case *ast.BinaryExpr:
 		return g.calls(x.X, c, func(c *ctx) *S { return g.calls(x.Y, c, k) })
 	case *ast.SelectorExpr:
+		g.access(x.Sel.Name, false, c, x)
 		return g.calls(x.X, c, k)
 	case *ast.StarExpr:
 		return g.calls(x.X, c, k)
@@ -636,9 +704,14 @@ func (g *gen) registerEntry(name string, variant string, fl *ast.FuncLit, c *ctx
 			for _, f := range fl.Type.Params.List {
 				for _, nm := range f.Names {
 					n.types[nm.Name] = baseType(f.Type)
+					if baseType(f.Type) == "func" {
+						n.fparams[nm.Name] = true
+					}
 				}
 			}
 		}
+		n.held = nil
+		n.where = name
 		body := g.block(fl.Body.List, n, func(c2 *ctx) *S { return g.ret(c2) })
 		g.entries = append(g.entries, &entry{Name: name, Skel: body})
 	})
@@ -652,11 +725,15 @@ func (g *gen) call(call *ast.CallExpr, c *ctx, k K) *S {
 			if l, ok := g.lockOf(sel.X, c); ok {
 				switch sel.Sel.Name {
 				case "Lock", "RLock":
+					c.acquire(l, modeOf(sel.Sel.Name))
 					return seq(&S{K: "Acq", L: l}, k(c))
 				case "Unlock", "RUnlock":
+					c.release(l)
 					return seq(&S{K: "Rel", L: l}, k(c))
 				case "TryLock", "TryRLock":
-					return &S{K: "Try", L: l, A: k(c.clone()), B: k(c.clone())}
+					cs := c.clone()
+					cs.acquire(l, modeOf(sel.Sel.Name))
+					return &S{K: "Try", L: l, A: k(cs), B: k(c.clone())}
 				case "RLocker":
 					return unknown("RLocker at " + g.pos(call))
 				}
@@ -671,6 +748,11 @@ func (g *gen) call(call *ast.CallExpr, c *ctx, k K) *S {
 		if id, ok := call.Fun.(*ast.Ident); ok {
 			if id.Name == "panic" {
 				return g.ret(c)
+			}
+			if id.Name == "delete" && len(call.Args) > 0 {
+				if f, n, ok := g.guardedTarget(call.Args[0]); ok {
+					g.access(f, true, c, n)
+				}
 			}
 			if builtins[id.Name] {
 				return k(c)
@@ -766,22 +848,27 @@ func (g *gen) cond(e ast.Expr, c *ctx) (known bool, val bool) {
 
 // tryOf recognises  L.TryLock()  and  !L.TryLock().
 func (g *gen) tryOf(e ast.Expr, c *ctx) (lock string, neg bool, ok bool) {
+	l, n, _, o := g.tryOfM(e, c)
+	return l, n, o
+}
+
+func (g *gen) tryOfM(e ast.Expr, c *ctx) (lock string, neg bool, mode string, ok bool) {
 	switch x := e.(type) {
 	case *ast.ParenExpr:
-		return g.tryOf(x.X, c)
+		return g.tryOfM(x.X, c)
 	case *ast.UnaryExpr:
 		if x.Op == token.NOT {
-			l, n, ok := g.tryOf(x.X, c)
-			return l, !n, ok
+			l, n, m, ok := g.tryOfM(x.X, c)
+			return l, !n, m, ok
 		}
 	case *ast.CallExpr:
 		if sel, ok := x.Fun.(*ast.SelectorExpr); ok && (sel.Sel.Name == "TryLock" || sel.Sel.Name == "TryRLock") {
 			if l, ok := g.lockOf(sel.X, c); ok {
-				return l, false, true
+				return l, false, modeOf(sel.Sel.Name), true
 			}
 		}
 	}
-	return "", false, false
+	return "", false, "", false
 }
 
 func (g *gen) block(stmts []ast.Stmt, c *ctx, k K) *S {
@@ -795,7 +882,12 @@ func (g *gen) stmt(s ast.Stmt, c *ctx, k K) *S {
 	switch x := s.(type) {
 	case nil:
 		return k(c)
-	case *ast.EmptyStmt, *ast.IncDecStmt:
+	case *ast.EmptyStmt:
+		return k(c)
+	case *ast.IncDecStmt:
+		if f, n, ok := g.guardedTarget(x.X); ok {
+			g.access(f, true, c, n)
+		}
 		return k(c)
 	case *ast.ExprStmt:
 		return g.calls(x.X, c, k)
@@ -818,6 +910,11 @@ func (g *gen) stmt(s ast.Stmt, c *ctx, k K) *S {
 		}
 		return k(c)
 	case *ast.AssignStmt:
+		for _, l := range x.Lhs {
+			if f, n, ok := g.guardedTarget(l); ok {
+				g.access(f, true, c, n)
+			}
+		}
 		if len(x.Lhs) == 1 && len(x.Rhs) == 1 {
 			if id, ok := x.Lhs[0].(*ast.Ident); ok {
 				if call, ok := x.Rhs[0].(*ast.CallExpr); ok {
@@ -830,8 +927,9 @@ func (g *gen) stmt(s ast.Stmt, c *ctx, k K) *S {
 							return &S{K: "Bind", V: v, A: k(c)}
 						})
 					}
-					if l, neg, ok := g.tryOf(call, c); ok && !neg {
+					if l, neg, mode, ok := g.tryOfM(call, c); ok && !neg {
 						c1, c2 := c.clone(), c.clone()
+						c1.acquire(l, mode)
 						c1.bools[id.Name] = true
 						c2.bools[id.Name] = false
 						return &S{K: "Try", L: l, A: k(c1), B: k(c2)}
@@ -873,11 +971,15 @@ func (g *gen) stmt(s ast.Stmt, c *ctx, k K) *S {
 				}
 				return g.stmt(x.Else, c, k)
 			}
-			if l, neg, ok := g.tryOf(x.Cond, c); ok {
-				a, b := thenK(c.clone()), elseK(c.clone())
+			if l, neg, mode, ok := g.tryOfM(x.Cond, c); ok {
+				cs := c.clone()
+				cs.acquire(l, mode)
+				var a, b *S
 				if neg {
 					// if !L.TryLock() {then} else {else}: then runs on failure
-					a, b = elseK(c.clone()), thenK(c.clone())
+					a, b = elseK(cs), thenK(c.clone())
+				} else {
+					a, b = thenK(cs), elseK(c.clone())
 				}
 				return &S{K: "Try", L: l, A: a, B: b}
 			}
@@ -932,6 +1034,11 @@ func (g *gen) stmt(s ast.Stmt, c *ctx, k K) *S {
 			return seq(star(body), k(c))
 		})
 	case *ast.ReturnStmt:
+		for _, rexp := range x.Results {
+			if fl, ok := rexp.(*ast.FuncLit); ok {
+				g.registerEntry(fmt.Sprintf("%s/returned@%s", c.where, g.pos(fl)), c.variant, fl, c)
+			}
+		}
 		return g.exprList(x.Results, c, func(c *ctx) *S { return g.ret(c) })
 	case *ast.DeferStmt:
 		if c.inLoop {
@@ -1094,13 +1201,26 @@ func main() {
 	dir := flag.String("dir", "", "package directory")
 	out := flag.String("out", ".", "output directory")
 	name := flag.String("name", "SkeletonRun", "module name of the generated .v file")
+	guardFlag := flag.String("guard", "", "guarded fields: field=mu,field2=mu (mu = the struct's mutex field named mu)")
+	allFuncs := flag.Bool("allfuncs", false, "take every function and method of the package as an entry (packages without backend constructors)")
+	accessOnly := flag.Bool("accessonly", false, "emit only the access table and its obligation")
 	flag.Parse()
 	p, err := load(*dir)
 	if err != nil {
 		fmt.Fprintln(os.Stderr, "skel:", err)
 		os.Exit(2)
 	}
-	g := &gen{p: p, seenLit: map[string]bool{}, external: map[string]int{}, assumed: map[string]bool{}}
+	g := &gen{p: p, seenLit: map[string]bool{}, external: map[string]int{}, assumed: map[string]bool{}, guarded: map[string]int{}, accSeen: map[string]bool{}}
+	var gfields []string
+	for _, kv := range strings.Split(*guardFlag, ",") {
+		if kv = strings.TrimSpace(kv); kv != "" {
+			gfields = append(gfields, strings.SplitN(kv, "=", 2)[0])
+		}
+	}
+	sort.Strings(gfields)
+	for i, f := range gfields {
+		g.guarded[f] = i
+	}
 	var variants []string
 	for v := range p.closures {
 		variants = append(variants, v)
@@ -1152,6 +1272,40 @@ func main() {
 		}
 	}
 
+	if *allFuncs {
+		base := func(where string) *ctx {
+			return &ctx{types: map[string]string{}, bools: map[string]bool{}, lockvars: map[string]int{},
+				localFns: map[string]*ast.FuncLit{}, fparams: map[string]bool{}, where: where}
+		}
+		var names []string
+		decls := map[string]*ast.FuncDecl{}
+		for n, fd := range p.funcs {
+			names = append(names, n)
+			decls[n] = fd
+		}
+		for t, ms := range p.methods {
+			for n, fd := range ms {
+				names = append(names, t+"."+n)
+				decls[t+"."+n] = fd
+			}
+		}
+		sort.Strings(names)
+		for _, n := range names {
+			fd := decls[n]
+			if fd.Body == nil {
+				continue
+			}
+			cal := &callee{body: fd.Body, ftype: fd.Type, recv: fd.Recv, name: n}
+			sk := g.inline(cal, nil, base(n))
+			g.entries = append(g.entries, &entry{Name: n, Skel: sk})
+			for len(g.pending) > 0 {
+				f := g.pending[0]
+				g.pending = g.pending[1:]
+				f()
+			}
+		}
+	}
+
 	var sb strings.Builder
 	fmt.Fprintf(&sb, "(* generated by harness/cmd/skel from %s - do not edit *)\n", *dir)
 	sb.WriteString("From Reservoir Require Import Base.Prelude Model.Sync.\n")
@@ -1181,6 +1335,38 @@ func main() {
 	fmt.Fprintf(&sb, "Definition entries : list skel := [%s].\n", strings.Join(names, "; "))
 	fmt.Fprintf(&sb, "Definition stop_entries : list skel := [%s].\n", strings.Join(stops, "; "))
 	fmt.Fprintf(&sb, "Definition evict_entries : list skel := [%s].\n", strings.Join(evicts, "; "))
+	if len(gfields) > 0 {
+		sb.WriteString("From Reservoir Require Import Model.Lockset.\n")
+		var recs []string
+		for _, a := range g.accesses {
+			var hs []string
+			for _, h := range a.Held {
+				i := strings.LastIndex(h, ":")
+				hs = append(hs, fmt.Sprintf("(%s, A%s)", h[:i], h[i+1:]))
+			}
+			w := "false"
+			if a.Write {
+				w = "true"
+			}
+			recs = append(recs, fmt.Sprintf("mk_access %d %s [%s] (* %s %s in %s *)", a.ID, w, strings.Join(hs, "; "), a.Field, a.Pos, a.Where))
+		}
+		fmt.Fprintf(&sb, "Definition accesses : list access :=\n [ %s ].\n", strings.Join(recs, "\n ; "))
+		sb.WriteString("Definition guard (f : nat) : slock := SMu.\n")
+		sb.WriteString("Lemma accesses_ok : forallb (access_ok guard) accesses = true.\nProof. vm_compute. reflexivity. Qed.\n")
+		sb.WriteString("Print Assumptions accesses_ok.\n")
+	}
+	if *accessOnly {
+		if err := os.MkdirAll(*out, 0755); err != nil {
+			panic(err)
+		}
+		if err := os.WriteFile(filepath.Join(*out, *name+".v"), []byte(sb.String()), 0644); err != nil {
+			panic(err)
+		}
+		js, _ := json.MarshalIndent(map[string]any{"dir": *dir, "accesses": g.accesses, "fields": gfields}, "", " ")
+		os.WriteFile(filepath.Join(*out, *name+".json"), js, 0644)
+		fmt.Printf("skel: %d guarded accesses in %d entries\n", len(g.accesses), len(g.entries))
+		return
+	}
 	// proof obligations over the regenerated term, re-checked by coqc on every run
 	sb.WriteString("From Reservoir Require Import Proofs.Sync.\n")
 	sb.WriteString("Lemma entries_ok : forallb entry_ok entries = true.\nProof. vm_compute. reflexivity. Qed.\n")
@@ -1204,7 +1390,7 @@ func main() {
 		asm = append(asm, k)
 	}
 	sort.Strings(asm)
-	js, _ := json.MarshalIndent(map[string]any{"dir": *dir, "entries": jes, "external_calls": ext, "assumed": asm, "variants": variants}, "", " ")
+	js, _ := json.MarshalIndent(map[string]any{"dir": *dir, "entries": jes, "external_calls": ext, "assumed": asm, "variants": variants, "accesses": g.accesses}, "", " ")
 	if err := os.WriteFile(filepath.Join(*out, "skeleton.json"), js, 0644); err != nil {
 		panic(err)
 	}
